@@ -296,6 +296,13 @@ theorem response_handler_awaits_directly :
     Gen.Site.handleResponse.filter (fun x => x ∈ ["put_delivery", "_socket_operation", "wait_for", "create_task", "shield"]) = ["put_delivery"] := by
   decide
 
+/-- TIE TO THE SOURCE (regenerated on every run, Gen/Site.lean): `put_delivery` and `get_delivery` each contain one `await`,
+    that of the sweep; the id is recorded after it, resp. popped (and the segment status updated) before it - recording
+    and consuming an SMSC message id are atomic steps, as in the model's `c.hresp` / `c.hdel` steps. -/
+theorem delivery_operations_await_only_the_sweep :
+    Gen.Site.putDeliveryAwaits = ["_remove_expired", "await", "set:_delivery_store"] ∧
+    Gen.Site.getDeliveryAwaits = ["pop:_delivery_store", "_remove_expired", "await"] := by decide
+
 end SmppVerif.Props.C02
 
 #print axioms SmppVerif.Props.C02.unknown_id_empty
@@ -314,3 +321,4 @@ end SmppVerif.Props.C02
 #print axioms SmppVerif.Props.C02.handle_request_step_order
 #print axioms SmppVerif.Props.C02.get_delivery_step_order
 #print axioms SmppVerif.Props.C02.response_handler_awaits_directly
+#print axioms SmppVerif.Props.C02.delivery_operations_await_only_the_sweep
